@@ -9,6 +9,8 @@ from areas import tree, treel, treel_tie
 def run(chk):
     treel.link_level_run(chk)
     treel_tie.tie2_run(chk)
+    from areas import hashtree_tie
+    hashtree_tie.tie_run(chk, "tree3")
     return tree.run_check(chk, "C01")
 
 
